@@ -17,7 +17,9 @@ def run(rep, tier, seed):
         p = run_vh(["c06-exec", "-out", ev, "-n", str(n)], env={"VERIF_SEED": str(seed)}, timeout=3000)
         j = validate(w, ev)
         rows = read_ndjson(ev)
-        for b in j["bad"][:200]:
+        for b in j["bad"]:
+            if len(rep.violations) >= 200:
+                break
             e = rows[b["i"] - 1]
             why = sorted(set(b["why"]) & TAGS)
             rep.violation({"key": "%s-%d" % ("+".join(why), abs(hash(e["prog"])) % 100000), "kind": "c06",
